@@ -12,6 +12,7 @@ import (
 	"math/big"
 	"sort"
 	"strings"
+	"sync"
 
 	"golang.org/x/tools/go/ssa"
 )
@@ -46,7 +47,11 @@ type FuncInfo struct {
 
 var funcInfoCache = map[*ssa.Function]*FuncInfo{}
 
+var analyzeMu sync.Mutex
+
 func analyze(fn *ssa.Function) *FuncInfo {
+	analyzeMu.Lock()
+	defer analyzeMu.Unlock()
 	if fi, ok := funcInfoCache[fn]; ok {
 		return fi
 	}
@@ -153,6 +158,10 @@ type Exec struct {
 	kindCnt  map[string]int
 	curFn    []*ssa.Function
 	ghost    map[string]Val // ghost variables of the unit
+	reveal   map[string]bool
+	subst    map[string]int64
+	refs     []Term     // object references known to be distinct from fresh allocations
+	entry    *unitEntry // entry state of the unit under verification
 }
 
 type unsupported struct{ msg string }
@@ -182,8 +191,7 @@ func (e *Exec) oblige(kind, label string, reach, goal Term, pos token.Pos) {
 	if e.c.dry || e.c.quiet > 0 {
 		return
 	}
-	g := e.c.implies(reach, goal)
-	if g.S == "true" {
+	if e.c.implies(reach, goal).S == "true" {
 		return
 	}
 	e.kindCnt[kind+":"+label]++
@@ -192,7 +200,22 @@ func (e *Exec) oblige(kind, label string, reach, goal Term, pos token.Pos) {
 	if n > 1 {
 		name = fmt.Sprintf("%s#%s[%d]:%s", e.unit, kind, n, label)
 	}
-	e.c.oblige(&Oblig{Name: name, Kind: kind, Fn: e.unit, Goal: g, Pos: e.posStr(pos), Props: e.props})
+	parts := []Term{goal}
+	switch kind {
+	case "ensures", "invariant-init", "invariant-step", "assert":
+		parts = e.c.conjuncts(goal)
+	}
+	for i, part := range parts {
+		g := e.c.implies(reach, part)
+		if g.S == "true" {
+			continue
+		}
+		nm := name
+		if len(parts) > 1 {
+			nm = fmt.Sprintf("%s.%d", name, i+1)
+		}
+		e.c.oblige(&Oblig{Name: nm, Label: label, Kind: kind, Fn: e.unit, Goal: g, Pos: e.posStr(pos), Props: e.props})
+	}
 }
 
 // ---------------------------------------------------------------------------------------------
